@@ -95,6 +95,7 @@ SHUTTLE_FILES = [
     "channel.rs", "channel/queue.rs", "executor/mt_executor.rs", "executor/mt_executor/pool_manager.rs",
     "executor/mt_executor/injector.rs", "executor/st_executor.rs", "simulation.rs", "simulation/scheduler.rs",
     "simulation/sim_init.rs", "time/monotonic_time.rs", "macros/scoped_thread_local.rs",
+    "ports/sink/event_buffer.rs", "ports/sink/event_slot.rs",
 ]
 # Post-conditions: after the redirection these patterns must be absent from the redirected files.
 SHUTTLE_FORBIDDEN = [r"\bstd::sync::Mutex\b", r"use std::sync::atomic", r"use std::thread", r"std::time::Instant", r"(?<![:\w])thread_local!"]
